@@ -24,6 +24,8 @@ ASSUMPTIONS = [
     "regular regime: well separated hierarchical systems, dt <= 0.05 P_min, n <= 200 steps (<= 20 orbits there "
     "and back); rounding error growth model n*(1+3pi*N_orb)",
     "safe_mode=0 runs are synchronised before the step is negated (documented requirement for changing dt)",
+    "SEI: shearing-sheet particles with Hill radius <= 0.003; with self-gravity a case is skipped when a pair starts "
+    "closer than 0.1 or could come closer than 0.05 on the way out (close encounters are not the regular regime)",
 ]
 JANUS_ORDERS = [2, 4, 6, 8, 10]
 SABA_PLAIN = ["1", "2", "3", "4", "10,4", "8,6,4", "10,6,4", "h8,4,4", "h8,6,4", "h10,6,4"]
@@ -235,6 +237,10 @@ def round_trip(sim, n, dt, ctx, what, P_min, details, dmin=None):
     # centre the length scale on the barycentre-free extent of the system (initial and turning point)
     xs = max(math.sqrt(sum(r[j] ** 2 for j in range(3))) for r in s0 + s1)
     vs = max(math.sqrt(sum(r[j] ** 2 for j in range(3, 6))) for r in s0 + s1)
+    # positions and velocities feed each other at the orbital / epicyclic frequency: the rounding scale of one is
+    # at least the other's times that frequency (a particle passing through the origin still has |v|/Omega extent)
+    om = 2.0 * math.pi / P_min
+    xs, vs = max(xs, vs / om), max(vs, xs * om)
     n_orb = 2.0 * n * abs(dt) / P_min
     cond = n * (1.0 + 3.0 * math.pi * n_orb)
     tpos = K_TOL * EPS * cond * xs
